@@ -60,7 +60,10 @@ TEXTS = {
         "text": "Theorems (Properties/C15.v): about the Gallina transcription of the Builder — for EVERY history of add_parent calls and every "
                 "history of add_* / annotate_* calls, the builder ends in exactly the state the successful calls alone produce (and those all "
                 "succeed again); every successful add_parent keeps ids unique, links resolving and children = parents^-1; and soundness of "
-                "the executable statement ref_closed (no dangling id in any accessor of an accepted observation). The check runs every "
+                "the executable statement ref_closed (no dangling id in any accessor of an accepted observation). NO DANGLING IDS FOR EVERY BUILDER "
+                "SCRIPT (C15_builder_ontologies_walk_returns): whatever calls are made and whichever fail, the complete walk through the read "
+                "API of the finished ontology (every resolving iterator of every term and record, each of which panics on an id that does not "
+                "resolve) returns. The check runs every "
                 "generated call history twice on the real Builder (with and without its failing calls), demands identical read-API dumps, "
                 "exact error codes (fails iff an absent term is named), a panic-free complete read-API walk, and agreement with the model.",
         "design_ref": "DESIGN.md §4 C15, §9", "note": NOTE_COMMON, "technique": TECH,
